@@ -797,3 +797,48 @@ Proof.
   destruct (fold_left _ _ _) as [[s3 dec] ev3]. inversion H; subst. simpl in *.
   apply F; [|exact Hr]. apply range_order_all. exact Hid.
 Qed.
+
+(* ---------- the evidence status is the election: at most TopValidatorCount stakers are active ---------- *)
+Definition active_in (vs : gmap Z VStat) (a : Z) : bool :=
+  match vs !! a with Some v => v_active v | None => false end.
+
+(* one queue entry: the status written for it is its election result, and an elected entry takes a slot *)
+Lemma elect_one_status : forall c mal h vs cnt q,
+  let upd := (minPower c <=? q.2) && (cnt <? topN c) && negb (inb q.1 mal) in
+  active_in (elect_one c mal h (vs, cnt) q).1 q.1 = upd /\
+  (elect_one c mal h (vs, cnt) q).2 = (if upd then cnt + 1 else cnt) /\
+  (forall b, b <> q.1 -> (elect_one c mal h (vs, cnt) q).1 !! b = vs !! b).
+Proof.
+  intros c mal h vs cnt q upd. unfold elect_one. fold upd. unfold active_in.
+  destruct (vs !! q.1) as [v|] eqn:E; simpl.
+  - destruct (Bool.eqb (v_active v) upd) eqn:B; simpl.
+    + rewrite E. apply eqb_prop in B. repeat split; auto.
+    + rewrite lookup_insert. simpl. repeat split; auto. intros b Hb. rewrite lookup_insert_ne by congruence. reflexivity.
+  - rewrite lookup_insert. simpl. repeat split; auto. intros b Hb. rewrite lookup_insert_ne by congruence. reflexivity.
+Qed.
+
+Lemma elect_fold_le : forall c mal h q vs cnt, cnt <= Z.max cnt (topN c) ->
+  cnt <= (fold_left (elect_one c mal h) q (vs, cnt)).2 <= Z.max cnt (topN c).
+Proof.
+  induction q as [|x q IH]; cbn [fold_left]; intros vs cnt H; [simpl; lia|].
+  destruct (elect_one_status c mal h vs cnt x) as (_ & Hc & _).
+  destruct (elect_one c mal h (vs, cnt) x) as [vs1 cnt1] eqn:E. simpl in Hc.
+  destruct ((minPower c <=? x.2) && (cnt <? topN c) && negb (inb x.1 mal)) eqn:U.
+  - apply andb_true_iff in U. destruct U as [U _]. apply andb_true_iff in U. destruct U as [_ U].
+    apply Z.ltb_lt in U. subst cnt1.
+    assert (P : cnt + 1 <= Z.max (cnt + 1) (topN c)) by lia. pose proof (IH vs1 (cnt + 1) P) as Q. lia.
+  - subst cnt1. apply IH. lia.
+Qed.
+
+Lemma active_count_le_top : forall c s q, 0 <= topN c -> 0 <= (elect c s q).2 <= topN c.
+Proof.
+  intros c s q H. unfold elect. pose proof (elect_fold_le c (malicious s) (height s) q (vstat s) 0). lia.
+Qed.
+
+(* a staker below the cut-off (all slots taken when its turn comes) is recorded inactive *)
+Lemma standby_inactive : forall c mal h vs cnt q,
+  topN c <= cnt -> active_in (elect_one c mal h (vs, cnt) q).1 q.1 = false.
+Proof.
+  intros c mal h vs cnt q H. destruct (elect_one_status c mal h vs cnt q) as (A & _). rewrite A.
+  assert (cnt <? topN c = false) as -> by lia. rewrite andb_false_r. reflexivity.
+Qed.
